@@ -342,6 +342,12 @@ def degenerate_input(text):
     return None
 
 
+def mc_row(report_lines, outputs, degenerate):
+    """the row work_package must write: the requested figures of the report, then the sampled inputs"""
+    sampled = f'{degenerate[0]}:{float(degenerate[2])};' if degenerate else ''
+    return ', '.join(str(mc_value(report_lines, o)) for o in outputs) + f', ({sampled})\n'
+
+
 def _mc_job(a):
     text, outputs, degenerate, scratch, src = a
     from geophires_monte_carlo import MC_GeoPHIRES3 as mc
@@ -397,7 +403,7 @@ def part_client(ctx, ok_inputs, direct):
                         observed={'json_where_client_looks': r['json_where_client_looks']})
     for k, outs, row in mcres:
         lines = direct[k]['report'].splitlines(keepends=True)
-        want = ', '.join(mc_value(lines, o) for o in outs) + ', ()\n'
+        want = mc_row(lines, outs, degenerate_input(ok_inputs[k][1]))
         ctx.count('monte-carlo-work-package', evaluations=1, nontrivial_keys=[ok_inputs[k][0]])
         if row != want:
             ctx.violate('property', 'monte-carlo:embedded-run-differs', 'the run embedded in MC_GeoPHIRES3.work_package reports other figures '
@@ -462,8 +468,8 @@ def replay(ctx, data):
     elif part == 'mc':
         ref = runner.run_many(ctx, [inp['text']])[0]
         with ProcessPoolExecutor(max_workers=1, initializer=runner._init_worker, initargs=(str(ctx.scratch),)) as ex:
-            row = ex.submit(_mc_job, (inp['text'], inp['outputs'], str(ctx.scratch), str(fw.SRC))).result()
-        want = ', '.join(str(mc_value(ref['report'].splitlines(keepends=True), o)) for o in inp['outputs']) + ', ()\n'
+            row = ex.submit(_mc_job, (inp['text'], inp['outputs'], degenerate_input(inp['text']), str(ctx.scratch), str(fw.SRC))).result()
+        want = mc_row(ref['report'].splitlines(keepends=True), inp['outputs'], degenerate_input(inp['text']))
         print('work_package row:', repr(row), '| from the direct report:', repr(want))
         bad = row != want
     else:
